@@ -240,17 +240,17 @@ func VerifC03HeaderF4() { verifC03Header(c03HeaderFocus(4)) }
 func c03HeaderDeepFocus(f int) c03HdrCfg {
 	switch f {
 	case 0: // dates: every shape with every shape of secondary date, every status, each WS independent
-		return c03HdrCfg{dateMode: 2, statusN: 3, descKinds: 2, nText: 1, cmnts: []int{-1, 0}, nCmnt: 1, wsN: 2, eachWS: true}
+		return c03HdrCfg{dateMode: 2, statusN: 3, descKinds: 2, nText: 1, cmnts: []int{-1, 0}, nCmnt: 1, wsN: 2, eachWS: true, wideFirst: -1}
 	case 1: // description of up to 3 characters, payee | note, all non-ASCII representatives first, é later
 		return c03HdrCfg{statusN: 3, nCode: 1, plainCode: true, descKinds: 4, nText: 3, cmnts: []int{-1, 0}, nCmnt: 1, wsN: 2, wideFirst: 7, wideRest: 1}
-	case 2: // trailing comment and tags, leaves up to 3 characters
-		return c03HdrCfg{statusN: 2, descKinds: 2, nText: 1, cmnts: c03AllCmnts, nCmnt: 3, wsN: 3, wideFirst: -1}
+	case 2: // trailing comment and tags after every kind of predecessor
+		return c03HdrCfg{statusN: 3, nCode: 1, plainCode: true, descKinds: 2, nText: 1, cmnts: c03AllCmnts, nCmnt: 2, wsN: 3, wideFirst: -1}
 	case 3: // payee and note both free, up to 2 characters each
 		return c03HdrCfg{statusN: 2, descKinds: 3, fullPN: true, nText: 2, cmnts: []int{-1, 0}, nCmnt: 1, wsN: 1, wideFirst: 3}
 	case 4: // CRLF after every kind of last token
 		return c03HdrCfg{statusN: 3, nCode: 1, descKinds: 4, nText: 2, cmnts: []int{-1, 0, 1}, nCmnt: 1, wsN: 1, crlf: 2}
-	default: // code of up to 4 characters before a description
-		return c03HdrCfg{statusN: 3, nCode: 4, descKinds: 2, nText: 1, cmnts: []int{-1, 0}, nCmnt: 1, wsN: 2, wideFirst: -1}
+	default: // code of up to 6 characters before a description
+		return c03HdrCfg{statusN: 3, nCode: 6, descKinds: 2, nText: 1, cmnts: []int{-1, 0}, nCmnt: 1, wsN: 2, wideFirst: -1}
 	}
 }
 
